@@ -35,8 +35,8 @@ CLAIMED = {
    text='What bkl owns of format independence is the canonical representation the decoders are mapped to: normalize/normalizeMap/normalizeList are proved to return a tree in which every number is a Go int or float64 (no int64, no json.Number) for every tree of decoder-producible shape, to be the identity on canonical trees, to turn json.Number into int/float64 and int64 into the int of the same value; yamlTranslateNode and yamlMerge are proved to produce canonical trees; $decode normalizes the decoded document before it re-enters the tree (site assertion). Under that invariant the type-sensitive == of match/merge/$repeat is logical equality whatever format each side came from.',
    note='ASSUMED, not proved: that the three third-party decoders are faithful to their formats (same logical tree from the same data; anchors, dotted keys); strconv parsing; TOML arrays of tables ([]map[string]any) and TOML dates are outside the clause (opaque element types in the model); loadFile applying normalize to every document is not under a functional contract; integers are mathematical (int64 that does not fit int cannot be represented).'),
  'C05': dict(cat='other', ref='DESIGN.md §4 C05',
-   text='The part of the round trip that bkl owns and a contract can reach: (1) format selection - in cmd/bkl the format is -f if given, else without -o the (virtual) extension of the FIRST input (transition clause: once chosen no later input changes it); OutputToFile uses the extension of the output path only when no format is given; OutputToWriter defaults to json-pretty; an unknown format is an error; (2) the format table registers exactly json, jsonl, json-pretty, yaml, yml, toml, the aliases share the codec of the name they alias, json-pretty decodes as json, every format has both directions and the codec functions of its own name.',
-   note='NOT decided by this family: that encoding then decoding yields the same documents is a property of yaml.v3, go-toml and encoding/json, which are not under contract (assumed deterministic, uninterpreted marshalS/unmarshalV); the stream framing loops (separators) write to bytes.Buffer / external encoders and are not under a functional contract; agreement with independent parsers is a differential test, outside contract-based verification.'),
+   text='The part of the round trip that bkl owns and a contract can reach: (1) format selection - in cmd/bkl the format is -f if given, else without -o the (virtual) extension of the FIRST input (transition clause: once chosen no later input changes it); OutputToFile uses the extension of the output path only when no format is given; OutputToWriter defaults to json-pretty; an unknown format is an error; (2) the format table registers exactly json, jsonl, json-pretty, yaml, yml, toml, the aliases share the codec of the name they alias, json-pretty decodes as json, every format has both directions and the codec functions of its own name; (3) stream framing on the encoding side: tomlMarshalStream, yamlMarshalStream, jsonMarshalStream and jsonMarshalStreamPretty are proved to produce exactly the framing of spec/framing.smt2 (TOML documents separated by a --- line with none before the first; YAML null documents as a bare --- line, nothing if first; JSON concatenation) over the per-document encodings, and to fail exactly when one per-document encoding fails.',
+   note='NOT decided by this family: that encoding then decoding yields the same documents is a property of yaml.v3, go-toml and encoding/json, which are not under contract (assumed deterministic, uninterpreted marshalS/unmarshalV); bytes.Buffer and the encoders are modelled as ghost strings (encS/encE uninterpreted per configuration and call number); the decoding side splits with regexp (external) and is not under contract; agreement with independent parsers is a differential test, outside contract-based verification.'),
  'C06': dict(cat='proof', ref='DESIGN.md §4 C06',
    text='One pass-through clause per evaluation stage, proved for all trees whose keys and strings do not start with a single $ (plain data and data with doubled dollars both qualify) and that are nested less deep than the recursion guard: process1* and process2* return dropF(obj) (only nulls dropped) without error, findOutputs selects nothing and returns the tree, filterOutput returns dropF(obj), validate accepts, finalizeString is exactly ReplaceAll("$$","$") and finalizeOutput applies it to every key and string value (finF).',
    note='Not proved: the composition into one end-to-end statement (unesc(dbl s) = s is a string induction the solvers do not do; it is stated in DESIGN.md as a bounded lemma and not claimed here); repeatDoc and Document.Process are not under a functional contract; height/rank are uninterpreted measures with child-smaller-than-parent axioms.'),
